@@ -15,6 +15,7 @@ Binding: Gen_MetricsQuery exports (a) scenarios = series set + value grid + ever
   final rotation + restart; group identity is compared by label set, values within 1e-9 relative.
 """
 import json
+import math
 import os
 import random
 import signal
@@ -65,6 +66,10 @@ def write_pick(dirpath, seed, mod, modl):
 def tlc_generate_pick(cfg, seed, mod, modl=20, timeout=1500):
     """vlib.tlc_generate stages spec/ and then copies extra_files over it: the seed-derived
     MetricsQueryPick.tla replaces the default one."""
+    # ScenHash multiplies the scenario part by (PickSeed + 3): a modulus that shares a factor with it would make the
+    # filter (partly) independent of the scenario - all or nothing.  Move to the next modulus coprime to it.
+    while mod > 1 and math.gcd(seed + 3, mod) > 1:
+        mod += 1
     sc = vlib.scratch("c09pick")
     try:
         p = write_pick(sc, seed, mod, modl)
@@ -483,7 +488,7 @@ def run_binding(chk, quick):
             # long-series family: few series, 12 (thorough: also 20) samples each, histories that split them at every point
             ("Gen_MetricsQuery_scenL.cfg", 11 if quick else 3, 20), ("Gen_MetricsQuery_layoutL.cfg", 1, 20 if quick else 4),
             # universe R: regular-expression forms beyond alternation / dot-star (anchors, \\d \\w, \\., {n}, [..], empty)
-            ("Gen_MetricsQuery_scenR.cfg", 5 if quick else 1, 20)]
+            ("Gen_MetricsQuery_scenR.cfg", 1, 20)]      # 127 scenarios, all written; the cases are sampled from them by seed
     if not quick:
         gens += [("Gen_MetricsQuery_scenL20.cfg", 7, 20), ("Gen_MetricsQuery_layoutL20.cfg", 1, 40)]
     out = vlib.pmap(lambda g: tlc_generate_pick(g[0], chk.seed, g[1], modl=g[2]), gens, workers=len(gens))
